@@ -2,6 +2,7 @@
 from __future__ import annotations
 
 from ..evalr import Obj, Dct
+from ..simp import mk_app
 from ..spec import CM, returns, raises, unmodelled_text, pc_text
 from ..terms import (App, Const, Num, Sym, Tup, NAN, add, sub, same, show, to_poly, atoms_of, subst, has_top)
 from .. import libmodel
@@ -155,7 +156,8 @@ def decode_accumulate(m, classes, wv):
         return False, "label, prediction and weight are not taken from the same sample position: " + facts
     if want_w is not None and wsrc != W:
         return False, facts
-    if want_w is None and not (isinstance(wsrc, App) and wsrc.fn == "ones_like"):
+    unit = isinstance(wsrc, App) and (wsrc.fn == "ones_like" or (wsrc.fn == "ones" and wsrc.args and wsrc.args[0] in (App("shape", (L,)), App("shape", (P,)), App("len", (L,)), App("len", (P,)))))
+    if want_w is None and not unit:
         return False, "default weight is %s, expected ones" % show(wsrc, 80)
     return True, show(inc, 60)
 
@@ -277,7 +279,7 @@ def _one_vs_all_path(ctx, chk, o, Mx, Kx, sfx):
     full = App("slice", (Const(None), Const(None), Const(None)))
     mjj = App("getitem", (Mx, Tup([E, j, j])))
     row = App("sum", (App("getitem", (Mx, Tup([E, j, full]))),), [("axis", Const(-1))])
-    col = App("sum", (App("getitem", (Mx, Tup([E, full, j]))),), [("axis", Const(-1))])
+    col = App("sum", (mk_app("getitem", [Mx, Tup([E, full, j])]),), [("axis", Const(-1))])   # normal form: M[..., :, j] = M[..., j]
     tot = App("sum", (Mx,), [("axis", Tup([Const(-1), Const(-2)]))])
     alt = {App("sum", (Mx,), [("axis", Tup([Const(-2), Const(-1)]))]): tot}
     cells = {k: subst(v, alt) for k, v in cells.items()}
